@@ -61,6 +61,24 @@ func staleSweep(x *Exec, dead Ref, liveDir *MNode, liveName string) error {
 		func() error { return x.Pathconf(dead) },
 		func() error { return x.Commit(dead, 0, 0) },
 	}
+	// the dead handle next to the live handle of the object that now has its inode number
+	if dead.N != nil {
+		for _, n := range x.M.LiveKind(nt.NF3DIR) {
+			if n.Fileid == dead.N.Fileid && n != dead.N && len(n.Children) < 200 {
+				re := n
+				name := "a"
+				if ns := sortedNames(re.Children); len(ns) > 0 {
+					name = ns[0]
+				}
+				steps = append(steps,
+					func() error { return x.Rename(LiveRef(re), name, dead, "zz_stale") },
+					func() error { return x.Rename(dead, name, LiveRef(re), "zz_stale") },
+					func() error { return x.Rename(LiveRef(re), name, dead, name) })
+				St.Class("stale_sweeps_with_the_dead_and_the_live_handle_of_one_inode_number_in_one_rename")
+				break
+			}
+		}
+	}
 	for _, f := range steps {
 		if err := f(); err != nil {
 			return err
